@@ -5,6 +5,7 @@ import (
 	"fmt"
 	"sort"
 	"strings"
+	"sync/atomic"
 	"time"
 
 	"github.com/vektah/gqlparser/v2/ast"
@@ -172,24 +173,24 @@ func scenBAT(s *sched.Sim, cfg Config, res *Result) {
 	}
 	var batchResp *clientResp
 	alone := make([]*clientResp, n)
-	doneA, doneB := false, false
+	var doneA, doneB atomic.Bool
 	s.Go("batch", func() {
 		reqs := make([]clientReq, n)
 		for i, el := range els {
 			reqs[i] = el.req
 		}
 		batchResp = env.post("batch", reqs, true)
-		doneA = true
+		doneA.Store(true)
 	})
 	s.Go("alone", func() {
 		for i, el := range els {
 			alone[i] = twin.post(fmt.Sprintf("alone%d", i), []clientReq{el.req}, false)
 		}
-		doneB = true
+		doneB.Store(true)
 	})
-	end := s.Run(func() bool { return doneA && doneB && len(s.Alive()) == 0 }, 200000, 10*time.Second)
+	end := s.Run(func() bool { return doneA.Load() && doneB.Load() && len(s.Alive()) == 0 }, 200000, 10*time.Second)
 	if end == sched.Hang {
-		res.Violate(prop+"/hang", "batch=%v alone=%v parked=%v", doneA, doneB, s.ParkedLabels())
+		res.Violate(prop+"/hang", "batch=%v alone=%v parked=%v", doneA.Load(), doneB.Load(), s.ParkedLabels())
 		return
 	} else if end == sched.StepBudget {
 		res.Verdict, res.Anomaly = "anomaly", "step budget exhausted in BAT"
